@@ -30,7 +30,7 @@ def check_C05(ctx):
         if mm3 is None:
             return
         ctx.coverage["streams"]["fsinv-corpus"] = {"witness_histories": len(wl), "mismatches": len(mm3)}
-        report_mismatches(ctx, mm3, st3, "the tree invariant is broken after an interrupted RemoveAll on %d fixed witness histories (corpus/C05-fsinv.cases)", shrink=False)
+        report_mismatches(ctx, mm3, st3, "the tree invariant is broken on %d fixed witness histories (corpus/C05-fsinv.cases: interrupted RemoveAll, renames through links to an ancestor)", shrink=False)
     # OrefaFS: model tie (C05_orefa_* are proved about Fs/OrefaFS.v) and the fixed witness histories
     from .c01 import orefa_part, fs_corpus_part
     orefa_part(ctx)
